@@ -382,6 +382,26 @@ def tagsOK (tags : String) (recs : List SRRec) (h : Heap UInt64 XP) : Bool :=
       let inited := (h r.canon).p.2
       c == 'B' || (inited && c == 'I') || (!inited && c == 'F')
 
+/-- `projections[strings.ToLower(name)]` for the names the generator uses -/
+def ctorOfName (n : String) : Ctor :=
+  if n == "longlat" || n == "identity" then .longlat
+  else if n == "merc" then .merc else if n == "tmerc" then .tmerc else if n == "utm" then .utm
+  else if n == "lcc" then .lcc else if n == "aea" then .aea else if n == "eqdc" then .eqdc
+  else if n == "krovak" then .krovak else .unknown
+
+/-- the fields one constructor run changed on the real SR (`wd` section) lie in the model's write set -/
+def wdBad (secs : List Tok) : Option String :=
+  secs.findSome? fun s =>
+    match s with
+    | ["wd", i, name, fields] =>
+      if fields == "-" then none
+      else
+        let ws := writeSet (ctorOfName name)
+        match (fields.splitOn ",").find? (fun f => !(ws.contains f)) with
+        | some f => some s!"constructor-{name}-wrote-{f}-outside-the-model's-write-set sr={i}"
+        | none => none
+    | _ => none
+
 def judgeHist (lhs rhs : Tok) : String :=
   let lsecs := sectionsOf lhs "|"
   match lsecs.take 3, sectionsOf rhs ";" with
@@ -449,7 +469,7 @@ def judgeHist (lhs rhs : Tok) : String :=
             if ncalled == 0 then s!"OK {base}-nocalls"
             else s!"OK {base}{if anyErr then "-err" else ""}"
         | _, _ => s!"DIFF {base} malformed-call-sections"
-      go { heap := heap0, pool := pool } calls callSecs 0 false 0 none
+      go { heap := heap0, pool := pool } calls callSecs 0 false 0 ((wdBad secs).map fun w => s!"DIFF {base} {w}")
     | _, _, _ => "DIFF hist-bad cannot-parse-line"
   | _, [["parse-error", m]] => s!"OK hist-skipped-unparsable-definition-{m.take 30}"
   | _, _ => s!"DIFF hist-bad malformed-answer {" ".intercalate (rhs.take 3)}"
